@@ -128,6 +128,8 @@ fn scenario(pr: &Params) -> Verdict {
             world::idle().await;
         }
         for (i, f) in PUBLISHED.iter().enumerate() {
+            // time passes between two publishes: reader tasks and everything else may run here
+            world::yield_now().await;
             let r = sock.send(msg(&[f.to_vec(), vec![b'0' + i as u8]])).await;
             if r.is_err() {
                 world::log(format!("publish#{} -> {}", i, e3::ok_or_err(&r)));
@@ -364,6 +366,84 @@ fn fault_scenario(ty: Ty, n: usize, dead: usize, kind: u8, hash_key: u64, policy
     e3::finish(v)
 }
 
+/// Scale family (not exhaustive in the counts): subscriber 0 subscribes to `n_topics` distinct topics and then
+/// unsubscribes from every even one; `n_subs - 1` further subscribers subscribe to one topic each; every topic is
+/// published once. Reference: the same multiset-of-prefixes model.
+fn scale_scenario(ty: Ty, n_topics: usize, n_subs: usize) -> Verdict {
+    world::reset(world::WorldCfg { nested_env: false, yields: true, select: true, policy: 0, coop: false });
+    let topic = |i: usize| format!("t{:04}", i).into_bytes();
+    let conns: Vec<e3::RawConn> = (0..n_subs).map(|p| e3::raw_conn(&format!("S{}", p))).collect();
+    let mut n_msgs = 0usize;
+    for (p, c) in conns.iter().enumerate() {
+        c.send(&rc::handshake("SUB", Some(format!("S{}", p).as_bytes())));
+        if p == 0 {
+            for i in 0..n_topics {
+                let mut f = vec![1u8];
+                f.extend(topic(i));
+                c.send(&rc::encode_message(&[f]));
+                n_msgs += 1;
+            }
+            for i in (0..n_topics).step_by(2) {
+                let mut f = vec![0u8];
+                f.extend(topic(i));
+                c.send(&rc::encode_message(&[f]));
+                n_msgs += 1;
+            }
+        } else {
+            let mut f = vec![1u8];
+            f.extend(topic(p % n_topics));
+            c.send(&rc::encode_message(&[f]));
+            n_msgs += 1;
+        }
+    }
+    let conns2 = conns.clone();
+    world::spawn_app("app", async move {
+        let mut sock = AnySocket::new(ty, None);
+        for c in &conns2 {
+            let _ = e3::attach_raw(sock.backend(), *c).await;
+        }
+        if ty == Ty::XPub {
+            for _ in 0..n_msgs + 2 {
+                if world::until_idle(sock.recv()).await.is_none() {
+                    break;
+                }
+            }
+        } else {
+            world::idle().await;
+        }
+        for i in 0..n_topics {
+            let _ = sock.send(msg(&[format!("t{:04}", i).into_bytes(), b"x".to_vec()])).await;
+        }
+        world::set_cond("published");
+        world::wait_cond("never").await;
+        drop(sock);
+    });
+    let end = world::run(e3::HORIZON * 20);
+    let mut v = Verdict::default();
+    v.truncated = end != world::RunEnd::Quiescent;
+    let what = format!("{}: subscriber 0 with {} topics (every even one unsubscribed again), {} further subscribers with one topic each", ty.name(), n_topics, n_subs - 1);
+    for p in world::panics() {
+        v.violate("panic", format!("{}: {}", what, p));
+    }
+    if !world::cond("published") && v.violations.is_empty() {
+        v.violate("publisher-stuck", format!("{}: the publishing actor did not finish", what));
+    }
+    for (p, c) in conns.iter().enumerate() {
+        let got: Vec<Vec<u8>> = c.tap_messages().into_iter().map(|m| m[0].clone()).collect();
+        let want: Vec<Vec<u8>> = if p == 0 { (0..n_topics).filter(|i| i % 2 == 1).map(topic).collect() } else { vec![topic(p % n_topics)] };
+        if got != want && v.violations.is_empty() {
+            let missing = want.iter().filter(|w| !got.contains(w)).count();
+            let extra = got.iter().filter(|g| !want.contains(g)).count();
+            v.violate(
+                "scale/delivery-differs-from-reference",
+                format!("{}: subscriber {} got {} messages, the reference says {} ({} missing, {} unexpected; first got {:?})", what, p, got.len(), want.len(), missing, extra, got.first().map(|f| String::from_utf8_lossy(f).to_string())),
+            );
+        }
+    }
+    v.outcome_hash = rc::fnv(format!("{}/{}", n_topics, n_subs).as_bytes());
+    e3::finish(v)
+}
+
 fn pj(p: &Params) -> Value {
     json!({"type": p.ty.name(), "hists": p.hists, "policy": p.policy})
 }
@@ -400,6 +480,10 @@ pub fn run(tier: Tier, replay: Option<String>) -> i32 {
     if let Some(path) = replay {
         let v: Value = serde_json::from_str(&std::fs::read_to_string(&path).expect("read")).expect("json");
         return crate::replay::replay_e3(&v, |p| {
+            if p["scenario"] == "scale" {
+                let (ty, nt, ns) = (Ty::from_name(p["type"].as_str()?)?, p["topics"].as_u64()? as usize, p["subs"].as_u64()? as usize);
+                return Some(std::sync::Arc::new(move || scale_scenario(ty, nt, ns)) as zvcore::explore::Scenario);
+            }
             if p["scenario"] == "fault" {
                 let (ty, n, dead, kind, hk, pol) = (Ty::from_name(p["type"].as_str()?)?, p["n"].as_u64()? as usize, p["dead"].as_u64()? as usize, p["kind"].as_u64()? as u8, p["hash_key"].as_u64()?, p["policy"].as_u64()? as u8);
                 return Some(std::sync::Arc::new(move || fault_scenario(ty, n, dead, kind, hk, pol)) as zvcore::explore::Scenario);
@@ -459,6 +543,11 @@ pub fn run(tier: Tier, replay: Option<String>) -> i32 {
             }
         }
     }
+    for ty in [Ty::Pub, Ty::XPub] {
+        for &(nt, ns) in tier.pick(&[(9usize, 2usize), (17, 3), (40, 20), (70, 70), (300, 2), (130, 130)][..], &[(9usize, 2usize), (17, 3), (40, 20), (70, 70), (300, 2), (130, 130), (1100, 3), (260, 260)][..]) {
+            jobs.push(e3::job(format!("C11/scale/{}/{}topics/{}subs", ty.name(), nt, ns), json!({"scenario":"scale","type":ty.name(),"topics":nt,"subs":ns}), 0, 10, move || scale_scenario(ty, nt, ns)));
+        }
+    }
     e3::run_jobs_into(&mut ck, jobs, false);
     let ex = ck.coverage.get("e3_executions").and_then(|v| v.as_u64()).unwrap_or(0);
     ck.cov("states", n_hist);
@@ -466,7 +555,7 @@ pub fn run(tier: Tier, replay: Option<String>) -> i32 {
     ck.cov("traces_validated_against_impl", ex);
     ck.cov("histories", n_hist);
     ck.cov("exhaustive", true);
-    ck.cov("explanation", format!("for PUB and XPUB: every history of length <= {} over 11 per-subscriber operations (subscribe / unsubscribe to \"\", a, ab, b; three kinds of malformed subscription message) for one subscriber ({} histories) and every pair of histories of length <= 2 for two subscribers ({} pairs); after the subscriptions are processed (PUB: reader tasks to quiescence; XPUB: the application receives them) the socket publishes first frames \"\", a, ab, abc, b, c with a serial second frame. Oracle: reference multiset-of-prefixes model; each subscriber's wire carries message f exactly once iff an active subscription is a byte-prefix of f; wires are well-formed; XPUB.recv returns the subscribers' messages verbatim in per-peer order. Subscriber-failure family: 2..3 (thorough 4) subscribers of \"a\", each one in turn starting to fail writes (BrokenPipe / ConnectionReset / other) right before three publishes, under 3 (thorough 6) hash keys (iteration orders of the subscriber table): every other subscriber gets each message exactly once. states = histories, transitions = executions (default schedule, plus every single deviation for short histories).", tier.pick(4, 5), single.len(), pairs.len() * pairs.len()));
+    ck.cov("explanation", format!("for PUB and XPUB: every history of length <= {} over 11 per-subscriber operations (subscribe / unsubscribe to \"\", a, ab, b; three kinds of malformed subscription message) for one subscriber ({} histories) and every pair of histories of length <= 2 for two subscribers ({} pairs); after the subscriptions are processed (PUB: reader tasks to quiescence; XPUB: the application receives them) the socket publishes first frames \"\", a, ab, abc, b, c with a serial second frame. Oracle: reference multiset-of-prefixes model; each subscriber's wire carries message f exactly once iff an active subscription is a byte-prefix of f; wires are well-formed; XPUB.recv returns the subscribers' messages verbatim in per-peer order. Subscriber-failure family: 2..3 (thorough 4) subscribers of \"a\", each one in turn starting to fail writes (BrokenPipe / ConnectionReset / other) right before three publishes, under 3 (thorough 6) hash keys (iteration orders of the subscriber table): every other subscriber gets each message exactly once. Scale family (not exhaustive in the counts): one subscriber with 9..300 (thorough 1100) topics of which every even one is unsubscribed again, next to up to 130 (260) subscribers with one topic each; every topic published once; same reference model. states = histories, transitions = executions (default schedule, plus every single deviation for short histories).", tier.pick(4, 5), single.len(), pairs.len() * pairs.len()));
     ck.assume("matching logic is sequential; interleavings of reader tasks with send are covered by yield points between subscribers (bound 1 on short histories)");
     ck.conclude()
 }
